@@ -1013,7 +1013,24 @@ func (c *Ctx) isReadinessLit(v ssa.Value) bool {
 				walk(x.Call.Args[0], d+1)
 				return
 			}
+			// a small side-effect-free boolean helper of the module: what it is given and what it returns
+			if f := x.Call.StaticCallee(); f != nil && c.inModule(f) && f.Blocks != nil && c.predPure(f, 1) {
+				for _, a := range x.Call.Args {
+					if _, isP := a.(*ssa.Parameter); isP {
+						continue
+					}
+					walk(a, d+1)
+				}
+				for _, ret := range returnsOf(f) {
+					for _, rv := range retResults(ret) {
+						walk(rv, d+1)
+					}
+				}
+				return
+			}
 			ok = false
+		case *ssa.Parameter:
+			// the receiver, or a helper's parameter whose argument was walked at the call
 		case *ssa.Phi:
 			for _, e := range x.Edges {
 				if _, isC := e.(*ssa.Const); !isC {
